@@ -37,6 +37,8 @@
 # define __CPROVER_same_object(a, b) 1
 # define __CPROVER_POINTER_OFFSET(p) ((size_t) (p))
 # define __CPROVER_object_whole(p) (p)
+# define __CPROVER_r_ok(p, n) 1
+# define __CPROVER_w_ok(p, n) 1
 # define __CPROVER_assume(x) do { if (!(x)) { printf("REPLAY-ASSUMPTION-FALSE %s\n", #x); exit(3); } } while (0)
 # define __CPROVER_assert(x, msg) do { if (!(x)) { printf("REPRODUCED %s\n", msg); vr_failed = 1; } } while (0)
 # define RET vr_ret
